@@ -121,3 +121,22 @@ def read_convolved_plain(path):
             ap, apunit = None, None
         return dict(filtwav=hdr.get('FILTWAV'), nmodels=hdr.get('NMODELS'), nap=hdr.get('NAP'), names=names,
                     flux=flux, err=err, unit=funit, apertures=ap, aperture_unit=apunit)
+
+
+def float32_edge_tolerance(truth, filt, rel_edge=2.4e-7):
+    """absolute tolerance on (flux[m,a], err[m,a]) for packages stored as float32 (1E, the documented format):
+    the code then forms the frequency grid and its bin mid-points in float32, which moves every bin edge by up to
+    ~1.2e-7 relative; an edge moved by d changes R_i by at most max(response)*d, on both sides of the bin.
+    (For filters that are narrow compared with the SED spacing this is far larger than 1e-7 of the flux.)"""
+    nu = truth.nu[::-1]
+    fnu = np.asarray(filt.nu.to(u.Hz).value, float)
+    rmax = float(np.max(filt.response))
+    lo, hi = fnu.min(), fnu.max()
+    n = len(nu)
+    e1 = np.concatenate([[nu[0]], 0.5 * (nu[:-1] + nu[1:])])
+    e2 = np.concatenate([0.5 * (nu[:-1] + nu[1:]), [nu[-1]]])
+    touch = (e2 >= lo * (1 - 1e-6)) & (e1 <= hi * (1 + 1e-6))
+    dR = np.where(touch, 2 * rel_edge * nu * rmax, 0.0)
+    F = np.abs(truth.flux[:, :, ::-1])
+    E = np.abs(truth.err[:, :, ::-1])
+    return np.sum(F * dR[None, None, :], axis=2), np.sum(E * dR[None, None, :], axis=2)
